@@ -3,7 +3,6 @@
 package main
 
 import (
-	"time"
 	"fmt"
 	"io"
 	"log"
@@ -11,10 +10,12 @@ import (
 	"os/signal"
 	"path/filepath"
 	"runtime"
+	"strconv"
 	"strings"
 	"syscall"
 	"testing"
 	"testing/synctest"
+	"time"
 
 	"github.com/whawty/auth/zz_verif/vlib"
 )
@@ -49,6 +50,9 @@ func bubble(t *testing.T, f func() string) (res string) {
 		}
 	}()
 	done := false
+	finished := make(chan struct{})
+	defer close(finished)
+	go spinWatchdog(t.Name(), finished) // an ordinary goroutine: it lives outside the bubble and on the real clock
 	synctest.Test(t, func(*testing.T) {
 		defer func() {
 			if r := recover(); r != nil {
@@ -62,6 +66,68 @@ func bubble(t *testing.T, f func() string) (res string) {
 	})
 	_ = done
 	return res
+}
+
+// spinWatchdog: inside a bubble time is virtual and only advances when every goroutine is blocked, so agent code that loops
+// without ever blocking (a request that is never answered because the dispatcher spins) stops the virtual clock, and none of
+// the harness's own time-outs can fire.  One bubble takes milliseconds to a few seconds of real time; after VERIF_SPIN_LIMIT
+// seconds (default 180) of real time this goroutine looks at the stacks: a goroutine that is running or runnable inside
+// non-test code of this package at three looks 10 s apart, while the bubble still has not finished, is reported - as a
+// violation by C10's check (the agent no longer processes requests), as inconclusive by every other check.
+func spinWatchdog(test string, finished <-chan struct{}) {
+	limit := 180
+	if v, err := strconv.Atoi(os.Getenv("VERIF_SPIN_LIMIT")); err == nil && v > 0 {
+		limit = v
+	}
+	select {
+	case <-finished:
+		return
+	case <-time.After(time.Duration(limit) * time.Second):
+	}
+	var seen []string
+	for look := 0; look < 3; look++ {
+		buf := make([]byte, 1<<20)
+		buf = buf[:runtime.Stack(buf, true)]
+		hit := ""
+		for _, g := range strings.Split(string(buf), "\n\n") {
+			head, _, _ := strings.Cut(g, "\n")
+			if !(strings.Contains(head, "[running") || strings.Contains(head, "[runnable")) || strings.Contains(g, "spinWatchdog") {
+				continue
+			}
+			lines := strings.Split(g, "\n")
+			for i := 1; i+1 < len(lines); i += 2 {
+				if (strings.HasPrefix(lines[i], "main.") || strings.Contains(lines[i], "/cmd/whawty-auth.")) && !strings.Contains(lines[i+1], "_test.go") {
+					if len(lines) > 14 {
+						lines = lines[:14]
+					}
+					hit = strings.Join(lines, " | ")
+					break
+				}
+			}
+			if hit != "" {
+				break
+			}
+		}
+		if hit == "" {
+			return // busy in the harness or the runtime, or blocked: not what this watchdog is about
+		}
+		seen = append(seen, hit)
+		select {
+		case <-finished:
+			return
+		case <-time.After(10 * time.Second):
+		}
+	}
+	msg := fmt.Sprintf("agent code keeps running without blocking or finishing: the case has taken more than %d s of real time and a goroutine is still busy in: %s", limit+20, seen[len(seen)-1])
+	if os.Getenv("VERIF_PROP") == "C10" {
+		vlib.Violation("agent wedged (busy loop): "+msg, test, map[string]any{"stacks": seen})
+		vlib.Flush()
+		fmt.Printf("VIOLATION C10: %s\n", msg)
+		os.Exit(1)
+	}
+	fmt.Printf("VERIF-INFRA %s\n", msg)
+	vlib.Flush()
+	os.Exit(3)
 }
 
 // agentEnv is one agent instance on a scratch directory.
